@@ -5,7 +5,7 @@ from __future__ import annotations
 
 from harness.state_common import (
     BASE_NAMES, BASE_SPECS, C_BOX, C_BOX_ANY, C_BOX_COL, C_BOX_COL2, C_BOX_INNER, C_BOX_INNER2, C_BOX_INT, C_BOX_STR, C_BYTES,
-    C_BOOL, C_COL, C_COL2, C_INNER2,
+    C_BOOL, C_COL, C_COL2, C_INNER2, C_PRETEND,
     C_DATE, C_DATETIME, C_FLOAT, C_HASLEN, C_ICOL, C_INNER, C_INT, C_NAMED, C_NODE, C_OBJ1, C_OBJ2, C_PAIR,
     C_PAIR_INT_STR, C_PATH, C_POSIXPATH, C_SCOL, C_STR, C_SUB, C_TIME, C_TIMEDELTA, C_TIMEZONE, C_UUID,
     ENUM_MEMBERS, show,
@@ -327,7 +327,7 @@ JUNK = ["N", "M", "b1", "b0", "i0", "i1", "f2", "f3", 's"a"', 's"ab"', 'y"a"', [
         ["S"], ["F", "i1"], ["D"], ["D", ['s"ab"', 's"cd"']], ["D", ['s"a"', "i1"]], ["E", str(C_COL), "0", "-"],
         ["E", str(C_SCOL), "0", 's"a"'], ["E", str(C_ICOL), "0", "i1"], ["I", str(C_INNER), "77", ["n", "i0"]],
         ["I", str(C_BOX), "78", ["v", "i1"]], ["I", str(C_BOX_STR), "79", ["v", 's"a"']], ["C", "0"],
-        ["O", str(C_UUID), "0"], ["O", str(C_OBJ2), "3"], ["L", ["L", "i1"]], ["T", "N"]]
+        ["O", str(C_UUID), "0"], ["O", str(C_OBJ2), "3"], ["L", ["L", "i1"]], ["T", "N"], ["O", str(C_PRETEND), "1"]]
 
 
 def paths(v, pre=()):
@@ -372,6 +372,8 @@ def break_node(rng, x):  # noqa: C901, PLR0911, PLR0912
             return rng.choice(['y"' + x[2:], ["E", str(C_SCOL), "0", 's"a"'], ["L", x], "i1", "N"])
         if x[0] == "y":
             return rng.choice(['s"' + x[2:], "N"])
+        if x == "M" and rng.random() < 0.5:
+            return ["O", str(C_PRETEND), str(rng.randint(0, 3))]     # looks like Missing to isinstance, is not MISSING
         return rng.choice(JUNK)
     k = x[0]
     if k in "LT" and r < 0.75:
